@@ -7,7 +7,9 @@ VERIF = os.path.dirname(os.path.dirname(os.path.abspath(__file__)))
 COQ = os.path.join(VERIF, "coq")
 BUILD = os.path.join(VERIF, "_build")
 HARNESS = os.path.join(VERIF, "harness")
-REPO = "/repo"
+REPO = os.environ.get("VERIF_REPO") or "/repo"
+DEV = REPO != "/repo"       # development mode: checks run against a scratch worktree; evidence/replays go under _build/dev
+OUTROOT = os.path.join(BUILD, "dev", os.path.basename(REPO.rstrip("/"))) if DEV else VERIF
 GOENV = dict(os.environ, GOFLAGS="-mod=mod", GOPROXY="off")
 GOENV.pop("GOSUMDB", None); GOENV.pop("GOTOOLCHAIN", None)
 COQARGS = ["-Q", os.path.join(COQ, "theories"), "UV", "-w", "-notation-overridden,-deprecated"]
@@ -26,7 +28,16 @@ class Lock:
     def __exit__(self, *a):
         fcntl.flock(self.f, fcntl.LOCK_UN); self.f.close()
 
+def gen_coqproject():
+    """_CoqProject lists every .v under theories/ (dependency order is coqdep's business)."""
+    files = sorted(os.path.relpath(f, COQ) for f in glob.glob(os.path.join(COQ, "theories", "**", "*.v"), recursive=True))
+    txt = "-Q theories UV\n-arg -w -arg -notation-overridden,-deprecated\n" + "\n".join(files) + "\n"
+    cp = os.path.join(COQ, "_CoqProject")
+    if not os.path.exists(cp) or open(cp).read() != txt:
+        with open(cp, "w") as f: f.write(txt)
+
 def ensure_makefile():
+    gen_coqproject()
     mf = os.path.join(COQ, "Makefile")
     cp = os.path.join(COQ, "_CoqProject")
     if not os.path.exists(mf) or os.path.getmtime(mf) < os.path.getmtime(cp):
@@ -82,22 +93,31 @@ def count_obligations(propfile):
     names = re.findall(r"^\s*(?:Theorem|Lemma|Example|Corollary)\s+(\w+)", txt, flags=re.M)
     return names
 
-def build_runner(tag, race=False):
+def build_runner(tag, race=False, pkg="./cmd/runner"):
     os.makedirs(BUILD, exist_ok=True)
-    with Lock("go"):
-        shutil.copy(os.path.join(REPO, "go.sum"), os.path.join(HARNESS, "go.sum"))
-        out = os.path.join(BUILD, "runner." + tag)
-        cmd = ["go", "build", "-tags", "verif"] + (["-race"] if race else []) + ["-o", out, "./cmd/runner"]
-        rc, log = sh(cmd, cwd=HARNESS, env=GOENV, timeout=1800)
+    out = os.path.join(BUILD, "runner." + tag + (".dev-" + os.path.basename(REPO.rstrip("/")) if DEV else ""))
+    cmd = ["go", "build", "-tags", "verif"] + (["-race"] if race else [])
+    if DEV:
+        # alternate go.mod whose replace directive points at the scratch worktree
+        mod = open(os.path.join(HARNESS, "go.mod")).read().replace("=> /repo", "=> " + REPO)
+        alt = os.path.join(BUILD, "go.dev-%s.mod" % os.path.basename(REPO.rstrip("/")))
+        with open(alt, "w") as f: f.write(mod)
+        shutil.copy(os.path.join(REPO, "go.sum"), alt[:-4] + ".sum")
+        cmd += ["-modfile", alt]
+        rc, log = sh(cmd + ["-o", out, pkg], cwd=HARNESS, env=GOENV, timeout=1800)
+    else:
+        with Lock("go"):
+            shutil.copy(os.path.join(REPO, "go.sum"), os.path.join(HARNESS, "go.sum"))
+            rc, log = sh(cmd + ["-o", out, pkg], cwd=HARNESS, env=GOENV, timeout=1800)
     return rc, log, out
 
 def run_race_suite(pid, P, tier, seed):
     """build the runner with the race detector and run the property's race suite;
     returns (failures, info). A DATA RACE report is itself a failing schedule."""
-    rc, log, runner = build_runner(pid + ".race", race=True)
+    rc, log, runner = build_runner(pid + ".race", race=True, pkg=P.get("pkg", "./cmd/runner"))
     if rc != 0:
         return [], {"error": "race build failed: " + log[-800:]}
-    rdir = os.path.join(BUILD, pid + ".race")
+    rdir = os.path.join(BUILD, pid + ".race" + (".dev-" + os.path.basename(REPO.rstrip("/")) if DEV else ""))
     shutil.rmtree(rdir, ignore_errors=True)
     env = dict(GOENV, GORACE="halt_on_error=0")
     rcr, out = sh([runner, P["race_suite"], "-seed", str(seed), "-n", str(P["n"][tier]), "-tier", tier, "-out", rdir],
@@ -165,6 +185,12 @@ def write_json(path, obj):
 def run_check(pid, reg, tier, seed, replay=None):
     t0 = time.time()
     P = reg[pid]
+    if replay:
+        try:
+            rj = json.load(open(replay))
+            seed = int(rj.get("seed", seed)); tier = rj.get("tier", tier)
+        except Exception as e:
+            print("cannot read replay file %s: %s" % (replay, e)); return 2
     propfile = "theories/Props/%s.v" % pid
     corrfiles = ["theories/" + c.replace(".", "/") + ".v" for c in P.get("corr", [])]
     evid = {"property_id": pid, "tier": tier, "seed": seed, "level": "proof", "coverage": {}, "assumptions": [], "wall_s": 0, "violations": 0}
@@ -209,8 +235,8 @@ def run_check(pid, reg, tier, seed, replay=None):
     stats = {}
     mism = []
     if P.get("runner"):
-        rcg, glog, runner = build_runner(pid)
-        casedir = os.path.join(BUILD, pid)
+        rcg, glog, runner = build_runner(pid, pkg=P.get("pkg", "./cmd/runner"))
+        casedir = os.path.join(BUILD, pid + (".dev-" + os.path.basename(REPO.rstrip("/")) if DEV else ""))
         if rcg != 0:
             problems.append(("harness-build", glog[-1500:]))
         else:
@@ -226,11 +252,21 @@ def run_check(pid, reg, tier, seed, replay=None):
                 if rc == 0 or all(os.path.exists(os.path.join(COQ, c[:-2] + ".vo")) for c in corrfiles):
                     res = run_cases(casedir)
                     terms = open(os.path.join(casedir, "cases.txt")).read().split("\n")
+                    oidx = stats.get("oracle_idx") or {}
                     for st, f, val in res:
                         if st == "error":
                             problems.append(("correspondence", "could not evaluate %s: %s" % (os.path.basename(f), val[-800:])))
                         else:
-                            for i in val: mism.append({"index": i, "case": terms[i][:4000]})
+                            for i in val:
+                                if str(i) in oidx:
+                                    # the case is the property's oracle (a proven-sound Coq predicate) applied to what the code produced
+                                    o = oidx[str(i)]
+                                    stats.setdefault("failures", [])
+                                    if stats["failures"] is None: stats["failures"] = []
+                                    stats["failures"].append({"key": o.get("key"), "what": o.get("what") or "property oracle (Coq predicate) rejects the implementation's output",
+                                                              "input": o.get("input"), "got": terms[i][:3000], "want": "oracle accepts"})
+                                else:
+                                    mism.append({"index": i, "case": terms[i][:4000]})
                 if mism:
                     problems.append(("correspondence", "%d of %d cases: model and implementation disagree; first: %s" % (len(mism), stats.get("evaluations", 0), mism[0]["case"][:600])))
         try: os.remove(runner)
@@ -253,10 +289,10 @@ def run_check(pid, reg, tier, seed, replay=None):
     # 4. search for a concrete failing input when something no longer checks
     searched = 0
     if problems and not violations and P.get("runner") and stats and not replay:
-        rcg, glog, runner = build_runner(pid + ".s")
+        rcg, glog, runner = build_runner(pid + ".s", pkg=P.get("pkg", "./cmd/runner"))
         if rcg == 0:
             for k in range(P.get("search_rounds", 3)):
-                sdir = os.path.join(BUILD, pid + ".search")
+                sdir = os.path.join(BUILD, pid + ".search" + (".dev-" + os.path.basename(REPO.rstrip("/")) if DEV else ""))
                 shutil.rmtree(sdir, ignore_errors=True)
                 sh([runner, P["runner"], "-seed", str(seed * 7919 + 104729 * (k + 1)), "-n", str(P["n"]["thorough"]), "-tier", "search", "-out", sdir],
                    cwd=VERIF, env=GOENV, timeout=P.get("runner_timeout", 3000))
@@ -282,8 +318,8 @@ def run_check(pid, reg, tier, seed, replay=None):
     replay_path = None
     if violations or problems:
         rc_final = 1
-        os.makedirs(os.path.join(VERIF, "replays"), exist_ok=True)
-        replay_path = os.path.join(VERIF, "replays", "%s-%s-%d.json" % (pid, tier, seed))
+        os.makedirs(os.path.join(OUTROOT, "replays"), exist_ok=True)
+        replay_path = os.path.join(OUTROOT, "replays", "%s-%s-%d.json" % (pid, tier, seed))
         write_json(replay_path, {
             "property": pid, "seed": seed, "tier": tier,
             "failing_inputs": violations[:20],
@@ -316,7 +352,7 @@ def run_check(pid, reg, tier, seed, replay=None):
     evid["assumptions"] = P.get("assumes", [])
     evid["violations"] = len(violations) + (1 if problems and not violations else 0)
     evid["wall_s"] = round(time.time() - t0, 1)
-    write_json(os.path.join(VERIF, "evidence", pid + ".json"), evid)
+    write_json(os.path.join(OUTROOT, "evidence", pid + ".json"), evid)
     print("%s %s: obligations %d/%d, cases %d (distinct non-trivial %d), mismatches %d, oracle failures %d (known %d), %.0fs -> %s" % (
         pid, tier, discharged, len(names), cov["evaluations"], cov["distinct_nontrivial"], len(mism), cov["oracle_failures"], len(known_seen), evid["wall_s"], "OK" if rc_final == 0 else "FAIL"))
     return rc_final
